@@ -72,14 +72,29 @@ _SUBST = [(["RG", [2], [0.5], False], ["RG", [4], [0.3], False]),
           (["GL", 2, 3], ["GL", 3, 4]), (["LM", 1, 1], ["LM", 2, 1]), (["LM", 2, 2], ["LM", 3, 3])]
 
 
-def _subst(obj):
+_SUBST2 = [(["RG", [2], [0.5], False], ["RG", [5], [1.5], False]),
+           (["RG", [3], [0.5], False], ["RG", [4], [0.1], False]),
+           (["RG", [4], [0.25], False], ["RG", [7], [0.3], False]),
+           (["RG", [2, 3], [0.5, 2.0], False], ["RG", [4, 2], [1.0, 0.25], False]),
+           (["RG", [3, 2], [0.3, 0.7], False], ["RG", [2, 5], [0.4, 0.4], False]),
+           (["RG", [2], [0.7], True], ["RG", [5], [0.2], True]),
+           (["RG", [3], [0.7], True], ["RG", [4], [1.1], True]),
+           (["RG", [4], [0.5], True], ["RG", [7], [0.35], True]),
+           (["RG", [2, 3], [0.5, 1.0], True], ["RG", [4, 2], [0.3, 0.9], True]),
+           (["U", [2]], ["U", [4]]), (["U", [3]], ["U", [2]]),
+           (["GL", 2, 3], ["GL", 2, 5]), (["LM", 1, 1], ["LM", 3, 2]), (["LM", 2, 2], ["LM", 4, 4]),
+           (["HP", 1], ["HP", 2])]
+
+
+def _subst(obj, table=None):
+    table = _SUBST if table is None else table
     if isinstance(obj, list):
-        for old, new in _SUBST:
+        for old, new in table:
             if obj == old:
                 return new
-        return [_subst(o) for o in obj]
+        return [_subst(o, table) for o in obj]
     if isinstance(obj, dict):
-        return {k: _subst(v) for k, v in obj.items()}
+        return {k: _subst(v, table) for k, v in obj.items()}
     return obj
 
 
@@ -108,12 +123,14 @@ def cases(tier, seed):
         cfgs = list(configs(tier))
         if tier != "quick" and name in _SUBST_CLASSES:
             seen = set(json.dumps(c, sort_keys=True) for c in cfgs)
-            for c in list(cfgs):
-                c2 = _subst(c)
-                k = json.dumps(c2, sort_keys=True)
-                if k not in seen and _cfg_size(c2) <= 64:     # the pair checks are quadratic in the number of pixels
-                    seen.add(k)
-                    cfgs.append(c2)
+            base = list(cfgs)
+            for table in (_SUBST, _SUBST2):
+                for c in base:
+                    c2 = _subst(c, table)
+                    k = json.dumps(c2, sort_keys=True)
+                    if k not in seen and _cfg_size(c2) <= 100:     # the pair checks are quadratic in the number of pixels
+                        seen.add(k)
+                        cfgs.append(c2)
         for k, cfg in enumerate(cfgs):
             for dt in cfg.get("_dts", ("f8", "c16")):
                 out.append(dict(cls=name, cfg=cfg, dt=dt, seed=int(seed)))
